@@ -23,6 +23,7 @@ EXPLANATION = (
     "the service classes reads its flags from the SCP's own `context` parameter. (responses) the SCU's "
     "response decoders get the request context's transfer syntax. Not decided: pydicom's conversion "
     "between transfer syntaxes; what user code passes as SOP class."
+    " Second session: the matching loop of _get_valid_context is evaluated for one candidate over the finite space of what it can look at (requested syntax absent / same / different x is_compressed, is_little_endian, is_deflated, is_implicit_VR of both: 288 points) and compared with the conversion rule; role-source borrows C11's every-context / normalisation rules."
 )
 
 UPS_EXPECTED = {"UnifiedProcedureStepPull", "UnifiedProcedureStepWatch", "UnifiedProcedureStepEvent", "UnifiedProcedureStepQuery"}
